@@ -230,6 +230,16 @@ static _Bool spec_fits_float(float m, int e) {
 
 /* ---- make_float stubs (CBMC build): record the call, check the callee's precondition ------------------------------- */
 enum { CK_TABLE = 1, CK_MAG = 2, CK_FLOATFIT = 4, CK_ZERO_EXIT = 8, CK_INF_EXIT = 16 };
+/* names of the checks a harness selects with its mask; the native replay build reports its verdict on the final value under
+ * the same names (the driver matches a native failure to the cbmc failure by name) */
+#define D_TABLE_D "make_float<double> precondition: |e| <= 511, the nine-entry power-of-ten tables"
+#define D_TABLE_F "make_float<float> precondition: |e| <= 63, the six-entry power-of-ten tables"
+#define D_FLOATFIT "the float path is taken only when the value does not exceed FLT_MAX (a value <= 1e300 never becomes infinity)"
+#define D_FLOATLOW "the float path is taken only when the value is not below the smallest positive float (never +/-0 for a non-zero value)"
+#define D_ZERO "+/-0 is returned only for a value below 1e-300"
+#define D_INF "+/-infinity is returned only for a value above 1e300"
+#define D_MAG "mantissa x 10^exponent handed to make_float has the decimal magnitude of the literal (never a finite value of the wrong magnitude)"
+#define D_MAGZERO "the mantissa handed to make_float is zero exactly when the literal is zero"
 static unsigned g_checks;
 static unsigned g_mf_calls;
 static _Bool g_mf_double;
@@ -240,7 +250,7 @@ static int g_mf_e;
 #ifdef CANARY_LIT
 #define CANARY_TABLE(e) ((e) != 7)
 #define CANARY_FIT(m, e) (!((m) == 77.0f && (e) == 0))
-#define CANARY_P(p) ((p) == 7)
+#define CANARY_P(p) ((p) == 7 || (p) == 300)
 #define CANARY_EXIT(p) ((p) != 400 && (p) != -400)
 #else
 #define CANARY_TABLE(e) 1
@@ -256,7 +266,7 @@ double make_float_double_int(double m, int e) {
   g_mf_m = m;
   CHECK(m >= 0.0 && m < 0x1p53, "the mantissa handed to make_float<double> is non-negative and below 2^53 (converted exactly)");
   if (g_checks & CK_TABLE)
-    CHECK(e >= -511 && e <= 511 && CANARY_TABLE(e), "make_float<double> precondition: |e| <= 511, the nine-entry power-of-ten tables");
+    CHECK(e >= -511 && e <= 511 && CANARY_TABLE(e), D_TABLE_D);
   return MARK_D;
 }
 float make_float_float_int(float m, int e) {
@@ -266,11 +276,11 @@ float make_float_float_int(float m, int e) {
   g_mf_m = (double)m;
   CHECK(m >= 0.0f && m < 0x1p24f, "the mantissa handed to make_float<float> is non-negative and below 2^24 (converted exactly)");
   if (g_checks & CK_TABLE)
-    CHECK(e >= -63 && e <= 63 && CANARY_TABLE(e), "make_float<float> precondition: |e| <= 63, the six-entry power-of-ten tables");
+    CHECK(e >= -63 && e <= 63 && CANARY_TABLE(e), D_TABLE_F);
   if (g_checks & CK_FLOATFIT)
-    CHECK(spec_fits_float(m, e) && CANARY_FIT(m, e), "the float path is taken only when the value does not exceed FLT_MAX (a value <= 1e300 never becomes infinity)");
+    CHECK(spec_fits_float(m, e) && CANARY_FIT(m, e), D_FLOATFIT);
   if (g_checks & CK_MAG)
-    CHECK(m == 0.0f || e >= -44, "the float path is taken only when the value is not below the smallest positive float (never +/-0 for a non-zero value)");
+    CHECK(m == 0.0f || e >= -44, D_FLOATLOW);
   return MARK_F;
 }
 #endif
@@ -429,15 +439,22 @@ static void pn_check_floating(struct pn_case *c, unsigned checks) {
   /* replay on the real code: the real make_float ran; compare the final value with libc's correctly rounded strtod.
    * (factor 2 is a magnitude test, far looser than the 1e-6 of the property: its only purpose is to confirm a wrong
    * magnitude / infinity / zero that the structural checks of the CBMC build predicted) */
-  (void)checks;
   double got = t == NT_FLOAT ? (double)c->r.value_.asFloat : c->r.value_.asDouble;
   double ref = strtod(c->s, 0);
   double ag = fabs(got), ar = fabs(ref);
   VERIF_OUT("result_bits", f64_bits(got));
   VERIF_OUT("strtod_bits", f64_bits(ref));
-  if (lit_above(li)) CHECK(isinf(got) || (ag >= 0.5e300 && ag >= ar / 2), "a value above 1e300 becomes infinity, never a finite value of the wrong magnitude");
-  else if (lit_below(li)) CHECK(ag <= 2e-300, "a value below 1e-300 becomes zero, never a finite value of the wrong magnitude");
-  else CHECK(isfinite(got) && ag >= ar / 2 && ag <= ar * 2, "a value within [1e-300, 1e300] parses to a finite number of the right magnitude");
+  /* "a value within [1e-300, 1e300] parses to a finite number of the right magnitude, a larger one to infinity, a smaller one
+   * to zero, never a finite value of the wrong magnitude" */
+  _Bool ok = lit_above(li) ? (isinf(got) || (ag >= 0.5e300 && ag >= ar / 2))
+           : lit_below(li) ? ag <= 2e-300
+                           : (isfinite(got) && ag >= ar / 2 && ag <= ar * 2);
+  if (checks & CK_TABLE) CHECK(ok, t == NT_FLOAT ? D_TABLE_F : D_TABLE_D);
+  if (checks & CK_MAG) CHECK(ok, D_MAG);
+  if (checks & CK_FLOATFIT) CHECK(ok, D_FLOATFIT);
+  if (checks & CK_ZERO_EXIT) CHECK(ok || got != 0, D_ZERO);
+  if (checks & CK_INF_EXIT) CHECK(ok || !isinf(got), D_INF);
+  if (!checks) CHECK(ok, "the final value has the magnitude of the literal");
 #else
   if (g_mf_calls == 0) {
     /* no make_float: one of the two early exits of the exponent loop */
@@ -445,21 +462,21 @@ static void pn_check_floating(struct pn_case *c, unsigned checks) {
     _Bool is_inf = t == NT_DOUBLE && (f64_bits(c->r.value_.asDouble) & 0x7fffffffffffffffull) == 0x7ff0000000000000ull;
     CHECK(is_zero || is_inf, "a floating result not made by make_float is +/-0 or +/-infinity");
     if (checks & CK_ZERO_EXIT)
-      CHECK(!is_zero || (lit_below(li) && CANARY_EXIT(li->p)), "+/-0 is returned only for a value below 1e-300");
+      CHECK(!is_zero || (lit_below(li) && CANARY_EXIT(li->p)), D_ZERO);
     if (checks & CK_INF_EXIT)
-      CHECK(!is_inf || (lit_above(li) && CANARY_EXIT(li->p)), "+/-infinity is returned only for a value above 1e300");
+      CHECK(!is_inf || (lit_above(li) && CANARY_EXIT(li->p)), D_INF);
   } else {
     CHECK(g_mf_calls == 1, "make_float is called once");
     CHECK(g_mf_double ? (t == NT_DOUBLE && (c->r.value_.asDouble == MARK_D || c->r.value_.asDouble == -MARK_D))
                       : (t == NT_FLOAT && (c->r.value_.asFloat == MARK_F || c->r.value_.asFloat == -MARK_F)),
           "the value made by make_float is returned with the literal's sign applied and nothing else");
     if (checks & CK_MAG) {
-      CHECK((g_mf_m != 0.0) == li->nonzero, "the mantissa handed to make_float is zero exactly when the literal is zero");
+      CHECK((g_mf_m != 0.0) == li->nonzero, D_MAGZERO);
       if (g_mf_m != 0.0 && li->nonzero)
         /* digits(m) - 1 + e == p with p = pm +/- E, written as e == +/-E + (pm + 1 - digits(m)): the same shape as the
          * routine's own sum, which spares the solver a cancellation */
         CHECK(g_mf_e == (li->eneg ? -li->E : li->E) + ((int)g_pm + 1 - spec_ndigits(g_mf_m)) + CANARY_P(li->p),
-              "mantissa x 10^exponent handed to make_float has the decimal magnitude of the literal (never a finite value of the wrong magnitude)");
+              D_MAG);
     }
   }
 #endif
@@ -517,14 +534,12 @@ static unsigned lit_run(unsigned checks) {
 #ifdef LIT_NONZERO
   __CPROVER_assume(c.li.nonzero); /* 0e999 -> inf is outside the stated range of C12 (v == 0): reported, not demanded */
 #endif
-#ifdef ABL1
-  __CPROVER_assume(c.li.nint <= 15);
+  /* the class of literals may be split by shape to keep each solver run small (the obligations of a split cover the class) */
+#ifdef SHAPE_E
+  __CPROVER_assume(c.li.has_e == SHAPE_E);
 #endif
-#ifdef ABL2
-  __CPROVER_assume(!c.li.has_e);
-#endif
-#ifdef ABL3
-  __CPROVER_assume(!c.li.has_dot);
+#ifdef SHAPE_DOT
+  __CPROVER_assume(c.li.has_dot == SHAPE_DOT);
 #endif
 #ifdef LIT_SHAPE /* a family: the exponent form of an integer mantissa, e.g. 1000000000e-309 */
   __CPROVER_assume(!c.li.has_dot && c.li.has_e && c.li.nexp == 3);
@@ -546,7 +561,13 @@ static unsigned lit_run(unsigned checks) {
   pn_done(&c);
   return m;
 }
-#define LIT_COVERS(m) COVER(m & 1u); COVER(m & 2u); COVER(m & 4u); COVER(m & 8u); COVER(m & 16u); COVER(m & 32u); COVER(m & 64u); COVER(m & 128u); COVER(m & 256u)
+#if PN_N >= 8 && !defined(LIT_SHAPE)
+#define LIT_COVER_FRACTION(m) COVER(m & 64u)
+#else
+#define LIT_COVER_FRACTION(m) ((void)0) /* no room for "-.123e1" / the family has no fraction */
+#endif
+#define LIT_COVERS(m) COVER(m & 1u); COVER(m & 2u); COVER(m & 4u); COVER(m & 8u); COVER(m & 16u); COVER(m & 32u); LIT_COVER_FRACTION(m); COVER(m & 128u); COVER(m & 256u)
+void h_lit_sound(void) { unsigned m = lit_run(CK_MAG | CK_TABLE | CK_INF_EXIT); LIT_COVERS(m); }
 void h_lit_magnitude(void) { unsigned m = lit_run(CK_MAG); LIT_COVERS(m); }
 void h_lit_table(void) { unsigned m = lit_run(CK_TABLE); LIT_COVERS(m); }
 void h_lit_float_fits(void) { unsigned m = lit_run(CK_FLOATFIT); LIT_COVERS(m); }
@@ -605,14 +626,16 @@ void h_grammar_rejects_beyond_empty_digit_groups(void) {
   COVER(c.n == 0);
   COVER(c.n == PN_N);
   COVER(c.n > 3 && c.s[0] == '1' && c.s[1] == 'e' && c.s[2] == '1');
+  COVER(c.li.E > 400);
   CHECK(c.r.type_ == NT_INVALID && !CANARY_REJ(c), "everything outside the grammar with possibly empty digit groups is Invalid");
   pn_done(&c);
 }
 
-/* ---- E. the scan reads only up to the first NUL ---------------------------------------------------------------------------- */
-void h_scan_memory(void) {
+/* ---- E + C. any string: the scan reads only up to the first NUL; grammar in both directions (lenient form) ------------------ */
+void h_any_string(void) {
   struct pn_case c;
   pn_input(&c);
+  __CPROVER_assume(!c.li.f4_family); /* 2^64 .. 2^64+3 and every string starting that way: obligation int_overflow_magnitude */
 #ifdef CANARY_SCAN
   /* the block ends before a NUL was seen whenever the string is "1234" */
   if (c.n == 4 && c.s[0] == '1' && c.s[1] == '2' && c.s[2] == '3' && c.s[3] == '4') c.s[4] = '5';
@@ -622,29 +645,75 @@ void h_scan_memory(void) {
   COVER(c.n == 0);
   COVER(c.r.type_ == NT_INVALID && c.n > 3);
   COVER(c.r.type_ == NT_DOUBLE);
+  COVER(c.li.strict && c.li.has_dot && c.li.has_e);
+  COVER(!c.li.lenient && c.n > 5 && c.li.nexp > 0);
   CHECK(c.r.type_ <= NT_DOUBLE, "the result kind is one of the five");
   CHECK(c.s[c.n] == 0, "the string is not modified");
+  CHECK(!c.li.strict || c.r.type_ != NT_INVALID, "every spelling of the number grammar is accepted");
+  /* (an exponent beyond the range makes the routine answer before it has seen the rest of the string: obligation
+   * grammar_rejects_garbage_behind_a_huge_exponent; here the exponent digits stay small) */
+  CHECK(c.li.lenient || OPTION_LETTER(c) || c.li.E > 200 || c.r.type_ == NT_INVALID, "everything outside the grammar with possibly empty digit groups (exponent digits up to 200) is Invalid");
   pn_done(&c);
 }
 #endif /* UNIT_PN || UNIT_PNLOOP */
 
 /* ================================================================================================================ */
 #ifdef UNIT_PN
+/* ---- lemma: the two independent readings of a string agree ---------------------------------------------------------------
+ * the harnesses construct the string from its cut (pn_input, generative); spec_scan reads a string left to right.  Both are
+ * written from the grammar; here every field of the one is compared with the other, for every string of at most PN_N chars */
+#ifdef PN_GENERATIVE
+void h_lemma_readings_agree(void) {
+  struct pn_case c;
+  pn_input(&c);
+  size_t a0 = g_a0, a1 = g_a1, b0 = g_b0, b1 = g_b1, c0 = g_c0, c1 = g_c1, lead = g_lead;
+  long pm = g_pm;
+  uint64_t Sa = g_S[a1];
+  _Bool ova = g_over[a1];
+  struct lit_info r;
+  spec_scan(c.s, c.n, &r);
+  COVER(c.li.strict && c.li.has_dot && c.li.has_e && c.li.nexp > 1);
+  COVER(!c.li.lenient && c.n == PN_N);
+  COVER(c.li.is_integer && c.n == PN_N);
+  COVER(!c.li.nonzero && c.li.strict);
+  _Bool first_ok = c.n > a0 && ((c.s[a0] >= '0' && c.s[a0] <= '9') || c.s[a0] == '.');
+  CHECK(r.strict == c.li.strict && r.lenient == c.li.lenient && r.is_integer == c.li.is_integer, "both readings classify the string alike");
+  if (first_ok) { /* behind a first character that is neither digit nor '.' the cut is of no consequence */
+#ifdef CANARY_LEMMA
+    CHECK(g_a0 == a0 && g_a1 == a1 && g_b0 == b0 && g_b1 == b1 && g_c0 == c0 && g_c1 == c1 + (c1 == 5), "both readings cut the string alike");
+#else
+    CHECK(g_a0 == a0 && g_a1 == a1 && g_b0 == b0 && g_b1 == b1 && g_c0 == c0 && g_c1 == c1, "both readings cut the string alike");
+#endif
+    CHECK(g_lead == lead && r.nonzero == c.li.nonzero && (!r.nonzero || (g_pm == pm && r.pow10 == c.li.pow10)), "both readings find the same leading digit and mantissa magnitude");
+    CHECK(r.neg == c.li.neg && r.eneg == c.li.eneg && r.has_dot == c.li.has_dot && r.has_e == c.li.has_e, "both readings see the same signs and markers");
+    CHECK(r.nint == c.li.nint && r.nfrac == c.li.nfrac && r.nexp == c.li.nexp, "both readings count the same digits");
+    CHECK(r.E == c.li.E && (!r.nonzero || r.p == c.li.p), "both readings give the same exponent and decimal magnitude");
+    CHECK(r.big == ova && (r.big || r.V == Sa) && r.f4_family == c.li.f4_family, "both readings give the same integer value");
+  }
+}
+#endif
+
 /* ---- B'. a digit string longer than any power table: d followed by k zeros (concrete family, loops unwound) ------------- */
 #ifndef LONG_K
 #define LONG_K 700
 #endif
+#ifndef LONG_CHECKS
+#define LONG_CHECKS (CK_TABLE | CK_MAG)
+#endif
 void h_long_zeros(void) {
   struct pn_case c;
+#ifdef LONG_EXACT
+  size_t n = LONG_K + 1; /* exactly d followed by LONG_K zeros */
+#else
   size_t n = in_u16();
   __CPROVER_assume(n >= 21 && n <= LONG_K + 1);
+#endif
   char d = in_char();
   __CPROVER_assume(d >= '1' && d <= '9');
-  char *s = (char *)malloc(n + 1);
-  __CPROVER_assume(s != 0);
+  static char buf[LONG_K + 2];
+  char *s = buf;
   s[0] = d;
-  for (unsigned i = 1; i <= LONG_K; i++) if (i < n) s[i] = '0';
-  s[n] = 0;
+  for (unsigned i = 1; i <= LONG_K + 1; i++) s[i] = i < n ? '0' : 0;
   c.s = s;
   c.n = n;
   /* what it denotes: d x 10^(n-1) */
@@ -654,12 +723,129 @@ void h_long_zeros(void) {
   c.li.nonzero = 1;
   c.li.pow10 = d == '1';
   c.li.p = (long)n - 1;
+  g_pm = (long)n - 1;
   c.li.nint = (unsigned)n;
-  pn_call(&c, CK_TABLE | CK_MAG);
+  pn_call(&c, LONG_CHECKS);
   COVER(n == LONG_K + 1);
-  COVER(n == 21);
-  COVER(n == 301 && d == '1'); /* exactly 1e300 */
-  pn_check_floating(&c, CK_TABLE | CK_MAG);
-  pn_done(&c);
+  COVER(d == '1');
+  COVER(d == '9');
+  pn_check_floating(&c, LONG_CHECKS);
 }
 #endif /* UNIT_PN */
+
+/* ================================================================================================================ */
+#ifdef UNIT_MF
+/* make_float<TFloat,int>(m, e) multiplies m by the table entries selected by the bits of |e|: entry i stands for 10^(+-2^i).
+ * The tables have 9 (double) and 6 (float) entries, so the callee's precondition is |e| <= 511 resp. |e| <= 63; under it every
+ * table access is in bounds (the bounds checks on the lowered static tables are cbmc's own), for every m and every e.
+ * That this precondition is what parseNumber must establish is shown by the canary: with |e| <= 512 (64) the access fails. */
+void h_make_float_double(void) {
+  double m = in_f64();
+  int e = in_i32();
+#ifdef CANARY_MF
+  __CPROVER_assume(e >= -512 && e <= 512);
+#else
+  __CPROVER_assume(e >= -511 && e <= 511);
+#endif
+  double r = make_float_double_int(m, e);
+  COVER(e == 511);
+  COVER(e == -511);
+  COVER(e == 0);
+  CHECK(e != 0 || m != m || f64_bits(r) == f64_bits(m), "make_float(m, 0) is m");
+}
+void h_make_float_float(void) {
+  float m = in_f32();
+  int e = in_i32();
+#ifdef CANARY_MF
+  __CPROVER_assume(e >= -64 && e <= 64);
+#else
+  __CPROVER_assume(e >= -63 && e <= 63);
+#endif
+  float r = make_float_float_int(m, e);
+  COVER(e == 63);
+  COVER(e == -63);
+  COVER(e == 0);
+  CHECK(e != 0 || m != m || f32_bits(r) == f32_bits(m), "make_float(m, 0) is m");
+}
+/* the table entries are the floating literals 10^(+-2^i) (the compiler's correctly rounded conversion of the decimal literal) */
+void h_power_tables(void) {
+  static const double dpos[9] = {1e1, 1e2, 1e4, 1e8, 1e16, 1e32, 1e64, 1e128, 1e256};
+  static const double dneg[9] = {1e-1, 1e-2, 1e-4, 1e-8, 1e-16, 1e-32, 1e-64, 1e-128, 1e-256};
+  static const float fpos[6] = {1e1f, 1e2f, 1e4f, 1e8f, 1e16f, 1e32f};
+  static const float fneg[6] = {1e-1f, 1e-2f, 1e-4f, 1e-8f, 1e-16f, 1e-32f};
+  struct pgm_ptr_double dp = FloatTraits_double_8__positiveBinaryPowersOfTen(), dn = FloatTraits_double_8__negativeBinaryPowersOfTen();
+  struct pgm_ptr_float fp = FloatTraits_float_4__positiveBinaryPowersOfTen(), fn = FloatTraits_float_4__negativeBinaryPowersOfTen();
+  unsigned i = in_u8();
+  __CPROVER_assume(i < 9);
+  COVER(i == 8);
+  COVER(i == 0);
+#ifdef CANARY_MF
+  CHECK(f64_bits(dp.ptr_[i]) == f64_bits(dpos[i]) + (i == 7), "double table entry i is 10^(2^i)");
+#else
+  CHECK(f64_bits(dp.ptr_[i]) == f64_bits(dpos[i]), "double table entry i is 10^(2^i)");
+#endif
+  CHECK(f64_bits(dn.ptr_[i]) == f64_bits(dneg[i]), "double table entry i is 10^-(2^i)");
+  if (i < 6) {
+    CHECK(f32_bits(fp.ptr_[i]) == f32_bits(fpos[i]), "float table entry i is 10^(2^i)");
+    CHECK(f32_bits(fn.ptr_[i]) == f32_bits(fneg[i]), "float table entry i is 10^-(2^i)");
+  }
+}
+#endif /* UNIT_MF */
+
+/* ================================================================================================================ */
+#ifdef UNIT_CONVTO
+/* Number::convertTo<T>(): the switch on the stored kind hands the stored member, and no other, to convertNumber<T, type of that
+ * member> and returns its result unchanged; an Invalid number gives T().  parseNumber<T>(s) hands s to parseNumber and
+ * converts what comes back.  convertNumber's own contract: unit numconvert (C13).  CBMC build only (the harness observes
+ * through stubs). */
+static unsigned g_cv_calls, g_cv_kind;
+static uint64_t g_cv_bits;
+static int8_t g_cv_ret;
+static unsigned g_pn_calls;
+static char *g_pn_arg;
+static struct Number g_pn_ret;
+struct Number parseNumber(char *s) { g_pn_calls++; g_pn_arg = s; return g_pn_ret; }
+#define CV_STUBS(TN, T) \
+  T convertNumber_##TN##_float(float v) { g_cv_calls++; g_cv_kind = NT_FLOAT; g_cv_bits = f32_bits(v); return (T)g_cv_ret; } \
+  T convertNumber_##TN##_long(long v) { g_cv_calls++; g_cv_kind = NT_SIGNED; g_cv_bits = (uint64_t)v; return (T)g_cv_ret; } \
+  T convertNumber_##TN##_ulong(unsigned long v) { g_cv_calls++; g_cv_kind = NT_UNSIGNED; g_cv_bits = v; return (T)g_cv_ret; } \
+  T convertNumber_##TN##_double(double v) { g_cv_calls++; g_cv_kind = NT_DOUBLE; g_cv_bits = f64_bits(v); return (T)g_cv_ret; }
+#ifdef CANARY_CONVTO
+#define CANARY_CV(bits) ((bits) == 77)
+#else
+#define CANARY_CV(bits) 0
+#endif
+#define H_CONVTO(TN, T) \
+  CV_STUBS(TN, T) \
+  static void convto_check_##TN(unsigned char type, uint64_t payload, T r) { \
+    if (type >= NT_FLOAT && type <= NT_DOUBLE) { \
+      CHECK(g_cv_calls == 1 && g_cv_kind == type, "convertTo<T> calls convertNumber<T, stored type> once, for the kind that is stored"); \
+      CHECK(g_cv_bits == (type == NT_FLOAT ? (payload & 0xffffffffu) : payload) + CANARY_CV(payload), "convertTo<T> hands over the stored member unchanged"); \
+      CHECK(r == (T)g_cv_ret, "convertTo<T> returns convertNumber's result unchanged"); \
+    } else { \
+      CHECK(g_cv_calls == 0 && r == (T)0, "convertTo<T> of an Invalid number is T()"); \
+    } \
+  } \
+  void h_convto_##TN(void) { \
+    struct Number n; \
+    memset(&n, 0, sizeof n); \
+    unsigned char type = in_u8(); \
+    uint64_t payload = in_u64(); \
+    n.type_ = type; \
+    memcpy(&n.value_, &payload, 8); \
+    g_cv_ret = in_i8(); \
+    g_cv_calls = 0; g_cv_kind = 0; \
+    T r = Number__convertTo_##TN(&n); \
+    COVER(type == NT_FLOAT); COVER(type == NT_SIGNED); COVER(type == NT_UNSIGNED); COVER(type == NT_DOUBLE); COVER(type == NT_INVALID); COVER(type > NT_DOUBLE); \
+    convto_check_##TN(type, payload, r); \
+    /* parseNumber<T>(s) */ \
+    char str[2] = {'7', 0}; \
+    g_pn_ret = n; g_pn_calls = 0; g_pn_arg = 0; g_cv_calls = 0; g_cv_kind = 0; \
+    T r2 = parseNumber_##TN(str); \
+    CHECK(g_pn_calls == 1 && g_pn_arg == str, "parseNumber<T>(s) hands s to parseNumber, once"); \
+    convto_check_##TN(type, payload, r2); \
+  }
+H_CONVTO(signedchar, signed char) H_CONVTO(uchar, unsigned char) H_CONVTO(short, short) H_CONVTO(ushort, unsigned short)
+H_CONVTO(int, int) H_CONVTO(uint, unsigned int) H_CONVTO(long, long) H_CONVTO(ulong, unsigned long)
+H_CONVTO(float, float) H_CONVTO(double, double)
+#endif /* UNIT_CONVTO */
